@@ -45,7 +45,7 @@ def cases(tier, seed):
     n = 70 if tier == "quick" else 1400
     sizes = [6, 8, 12, 20, 40, 80, 150, 300, 600, 1200, 2500]
     for i in range(n):
-        fam = str(rng.choice(["voronoi", "voronoi", "merged", "polyhedron", "cubed_sphere"]))
+        fam = str(rng.choice(["voronoi", "voronoi", "merged", "polyhedron", "cubed_sphere", "latlon_global", "latlon_patch", "clustered"]))
         s = int(rng.integers(0, 2**31 - 1))
         if fam == "voronoi":
             nn = int(sizes[int(rng.integers(0, len(sizes) if tier == "thorough" else len(sizes) - 1))])
@@ -55,9 +55,19 @@ def cases(tier, seed):
             d = {"family": fam, "n": nn, "seed": s, "frac": float(rng.choice([0.3, 0.6, 0.9]))}
         elif fam == "polyhedron":
             d = {"family": fam, "name": gen.POLYHEDRA[int(rng.integers(0, len(gen.POLYHEDRA)))]}
+        elif fam == "latlon_global":
+            d = {"family": fam, "nlon": int(rng.integers(4, 40)), "nlat": int(rng.integers(3, 24))}
+        elif fam == "latlon_patch":
+            nx, ny = int(rng.integers(1, 9)), int(rng.integers(1, 7))
+            dlat = float(rng.choice([2.0, 5.0, 10.0]))
+            lat0 = float(rng.choice([-0.5 * ny * dlat, -0.5 * ny * dlat, -85.0, 20.0]))
+            d = {"family": fam, "nx": nx, "ny": ny, "lon0": float(rng.choice([-179.0, -10.0, 150.0, 175.0])), "lat0": min(lat0, 88.0 - ny * dlat),
+                 "dlon": float(rng.choice([2.0, 5.0, 10.0, 15.0])), "dlat": dlat}
+        elif fam == "clustered":
+            d = {"family": fam, "n": int(rng.choice([20, 60, 150])), "seed": s}
         else:
             d = {"family": fam, "ne": int(rng.integers(2, 12))}
-        d["ops"] = [["rot", int(rng.integers(0, 10**6))]] if rng.random() < 0.5 else []
+        d["ops"] = [["rot", int(rng.integers(0, 10**6))]] if (rng.random() < 0.5 and fam not in ("latlon_global", "latlon_patch")) else []
         yield {"kind": "mesh", "mesh": d, "tseed": int(rng.integers(0, 10**6)), "all_rules": bool(i % 4 == 0)}
 
 
@@ -192,7 +202,7 @@ def run_case(ctx, case):
             rhi = np.abs(by_rule[(fam, hi)] - ex) / ex
             rdf = np.abs(by_rule[(fam, dflt)] - ex) / ex
             lim = np.where(diam <= 30, 1e-9, np.where(diam <= 65, 1e-6, np.inf))
-            badc = np.argwhere(eligible & ((rhi > np.maximum(rdf, 1e-12)) | (rhi > lim)))
+            badc = np.argwhere(eligible & ((rhi > np.maximum(rdf, 1e-12 + 2e-15 / ex)) | (rhi > lim)))  # rounding floor: ~10 ulp of the unit sphere, absolute
             ctx.clause_evals["convergence"] = ctx.clause_evals.get("convergence", 0) + int(eligible.sum()) - 1
             ctx.check("convergence", len(badc) == 0, {"family": fam},
                       None if not len(badc) else {"face": int(badc[0][0]), "diam_deg": float(diam[badc[0][0]]), "err_hi": float(rhi[badc[0][0]]), "err_default": float(rdf[badc[0][0]]), "mesh": d})
